@@ -342,6 +342,8 @@ def run(tier: str) -> int:
     # non-ASCII text reaching the output (hashed names, display strings, source comments): the size is
     # counted in characters of `code`, one per code point, as the pinned tree does
     progs.append(("non_ascii", c13.HDR + "# T\u00fcr \u00f6ffnen \u2013 \u4e2d\u6587\nGrowLights[\"T\u00fcr \u00d6l\"].On = d0.Setting  # \u00e4\u00f6\u00fc\ndb.Setting = HASH(\"\u00e9t\u00e9\")\nx = d1.Setting\nif x > 1:\n    db.Mode = STR(\"\u00b5\")  # \u00b5 sign\n"))
+    # characters that str.splitlines() treats as line ends inside string operands
+    progs.append(("separator_chars", c13.HDR + "db.Setting = HASH(\"Tank\\x0cA\")\nx = d0.Setting\nif x > 1:\n    db.Mode = HASH(\"a\\x1db\")\nGrowLights[\"L\\u2028x\"].On = x\n"))
     # constructs that involve sp / ra / aliases next to general registers
     progs.append(("sp_ra_alias", c13.HDR + "h = WallHeater(d2, alias=True)\nk = GrowLight(d1, alias=\"LAMP\")\n\ndef f(a):\n    push(a)\n    t = pop() + sp\n    h.On = t\n    return t\n\nk.On = f(d0.Setting)\nk.Lock = f(2)\npush(ra)\n"))
     from .. import probes as _probes
